@@ -209,6 +209,8 @@ inductive Mi where
   | allocd (δ : Int)      -- ADD_STRING / SUB_STRING of strings that are not cells (function names, verbs)
   | distinct (δ : Int)
   | swap                  -- exchange the two top temps
+  | inplace (c : Nat)     -- marker: the primitive has decided "single owner" and modifies block c in place
+  | settext (c : Nat) (w : String)   -- bytes of string block c overwritten
   deriving Repr
 
 /-- one step of a running free_svalue: pop a value; decrement; on zero deallocate and schedule the contents -/
@@ -323,6 +325,14 @@ def mstep (s : St) : Mi → M St
     match s.temps with
     | a :: b :: rest => pure { s with temps := b :: a :: rest }
     | _ => throw .misuse
+  | .inplace c =>
+    match s.heap[c]? with
+    | none => throw .uaf
+    | some cell => if !cell.live then throw .uaf else pure s
+  | .settext c w =>
+    match s.heap[c]? with
+    | none => throw .uaf
+    | some cell => if !cell.live then throw .uaf else pure (s.setCell c { cell with text := w })
 
 def runMi (s : St) : List Mi → M St
   | [] => pure s
@@ -360,6 +370,11 @@ inductive Op where
   | sent (k o s t : Nat) | rmsent (k : Nat)
   | err (s t : Nat) | efun (f s t : Nat)
   | inp (o s t : Nat) | input
+  | sappend (d : Nat) (w : String)            -- v[d] += "w"             (EXTEND_SVALUE_STRING)
+  | sjoin (d t : Nat)                         -- v[d] += v[t]            (SVALUE_STRING_JOIN)
+  | sadd (d s : Nat) (w : String)             -- v[d] = v[s] + "w"       (EXTEND_SVALUE_STRING on the pushed copy)
+  | schar (d i : Nat) (w : String)            -- v[d][i] = 'w'           (unlink_string_svalue + byte store)
+  | srange (d i j : Nat) (w : String)         -- v[d][i..j] = "w"        (unlink_string_svalue + copy_lvalue_range)
   | clones (n : Nat) | unclone (n : Nat)   -- program counter probe, see ProgRef in Drive.lean
   deriving Repr
 
@@ -381,6 +396,35 @@ def objCell (s : St) (o : Nat) : Option (Nat × Cell) :=
     | some (c, cell) => if cell.live && cell.kind == .obj && !cell.destructed then some (c, cell) else none
     | none => none
   else none
+
+/-- live string behind a root -/
+def strSlot (s : St) (i : Nat) : Option (Nat × Cell) :=
+  match slotCell s i with
+  | some (c, cell) => if cell.live && cell.kind.isStr then some (c, cell) else none
+  | none => none
+
+/-- a new malloc string with the given text replaces the value at root i (new_string, copy, free_string_svalue) -/
+def replaceStr (i : Nat) (w : String) : List Mi :=
+  [.alloc .mstr 0 true w 0, .take (.root i), .free, .put (.root i)]
+
+/-- EXTEND_SVALUE_STRING / SVALUE_STRING_JOIN on the string at root i whose block currently has counter `r`:
+    the regenerated condition decides between extend_string() on the block itself and a new block.  With a single
+    owner both have the same effect on counters and values (realloc keeps the header). -/
+def extendProg (inPlace : Bool → Nat → Bool) (c : Nat) (cell : Cell) (r : Nat) (i : Nat) (w : String) : List Mi :=
+  (if inPlace (cell.kind == .mstr) r then [Mi.inplace c] else []) ++ replaceStr i w
+
+/-- unlink_string_svalue on the string at root d, followed by a store that produces text w (same length: bytes
+    overwritten; other length: the - now private - block is replaced) -/
+def unlinkStoreProg (c : Nat) (cell : Cell) (d : Nat) (w : String) : List Mi :=
+  if cell.kind == .mstr && !(NV.Gen.C06.unlinkCopies cell.ref) then
+    (if w.length == cell.text.length then [.inplace c, .settext c w] else .inplace c :: replaceStr d w)
+  else replaceStr d w
+
+def setCharAt (t : String) (i : Nat) (w : String) : String :=
+  String.mk (t.toList.take i ++ w.toList.take 1 ++ t.toList.drop (i + 1))
+
+def setRange (t : String) (i j : Nat) (w : String) : String :=
+  String.mk (t.toList.take i ++ w.toList ++ t.toList.drop (j + 1))
 
 def assignProg (dst src : Loc) : List Mi := [.take dst, .free, .dup src, .put dst]
 
@@ -610,6 +654,46 @@ def compile (s : St) (op : Op) : Option (List Mi) :=
               .take (.root (top + 1)), .free, .popRoot, .take (.root top), .free, .popRoot,
               .free]
       | _ => none
+    | none => none
+  | .sappend d w =>
+    match strSlot s d with
+    | some (c, cell) =>
+      if d < nSlots then some (extendProg NV.Gen.C06.extendInPlace c cell cell.ref d (cell.text ++ w)) else none
+    | none => none
+  | .sjoin d t =>
+    match strSlot s d, strSlot s t with
+    | some (c, cell), some (ct, tcell) =>
+      if d < nSlots && t < nSlots then
+        -- the right operand is a pushed copy: if it is the same block its counter has already been incremented
+        let r := if ct == c then incRef cell.kind cell.ref 1 else cell.ref
+        some ([.pushRoot, .dup (.root t), .put (.root top)] ++
+              (if NV.Gen.C06.joinInPlace (cell.kind == .mstr) r then [Mi.inplace c] else []) ++
+              [.alloc .mstr 0 true (cell.text ++ tcell.text) 0, .take (.root top), .free, .popRoot,
+               .take (.root d), .free, .put (.root d)])
+      else none
+    | _, _ => none
+  | .sadd d a w =>
+    match strSlot s a with
+    | some (c, cell) =>
+      if d < nSlots && a < nSlots then
+        some ([.pushRoot, .dup (.root a), .put (.root top)] ++
+              extendProg NV.Gen.C06.extendInPlace c cell (incRef cell.kind cell.ref 1) top (cell.text ++ w) ++
+              [.take (.root d), .free, .take (.root top), .put (.root d), .popRoot])
+      else none
+    | none => none
+  | .schar d i w =>
+    match strSlot s d with
+    | some (c, cell) =>
+      if d < nSlots && i < cell.text.length && w.length == 1 then
+        some (unlinkStoreProg c cell d (setCharAt cell.text i w))
+      else none
+    | none => none
+  | .srange d i j w =>
+    match strSlot s d with
+    | some (c, cell) =>
+      if d < nSlots && i ≤ j && j < cell.text.length && 0 < w.length then
+        some (unlinkStoreProg c cell d (setRange cell.text i j w))
+      else none
     | none => none
   | .err _ _ => none
   | .efun _ _ _ => none
